@@ -52,7 +52,8 @@ RestMayChange(p, os) == \E i \in 1..Len(os) :
 
 \* ------------------------------------------------------------------ abstract commit obligation
 Same(p, q) == p.D = q.D /\ p.S = q.S /\ p.C = q.C /\ p.rest = q.rest
-SameAll(p, q) == Same(p, q) /\ p.mver = q.mver
+\* (saved: the versions the MDIB remembers for removed objects - they decide the versions of a later re-creation)
+SameAll(p, q) == Same(p, q) /\ p.mver = q.mver /\ p.saved = q.saved
 
 RefOK(p) ==
   /\ \A h \in H(p) : p.S[h].present => (p.D[h].present /\ p.S[h].dver = p.D[h].ver)
